@@ -33,6 +33,10 @@ var ss = ssdbg.DebuggerStates
 
 // StartDebugger: a headless am-dbg on a simulation screen, listening on a free local port.
 func StartDebugger(ctx context.Context, outDir string) (*debugger.Debugger, string, error) {
+	return startDebugger(ctx, outDir, "")
+}
+
+func startDebugger(ctx context.Context, outDir, importFile string) (*debugger.Debugger, string, error) {
 	os.Setenv(dbg.EnvAmDbgNoTrace, "1")
 	screen := tcell.NewSimulationScreen("utf8")
 	_ = screen.Init()
@@ -48,6 +52,7 @@ func StartDebugger(ctx context.Context, outDir string) (*debugger.Debugger, stri
 		Id:         "verif-dbg",
 		Screen:     screen,
 		OutputDir:  outDir,
+		ImportData: importFile,
 		ListenAddr: addr,
 		Print:      func(string, ...any) {},
 		MaxMemMb:   2000,
@@ -88,13 +93,13 @@ type refRec struct {
 
 type refTracer struct {
 	*am.TracerNoOp
-	can   bool
-	early func(id string) // looks the transition up in the debugger before its record can have arrived
+	can    bool
+	early  func(id string) // looks the transition up in the debugger before its record can have arrived
 	nearly int
-	mu   sync.Mutex
-	m    *am.Machine
-	recs []refRec
-	last []uint64
+	mu     sync.Mutex
+	m      *am.Machine
+	recs   []refRec
+	last   []uint64
 }
 
 func (t *refTracer) TransitionEnd(tx *am.Transition) {
